@@ -39,7 +39,8 @@ type target struct {
 var targets = []target{
 	{"cisco", nil, []string{"parser.ParseConfig", "parser.lookupCmd", "matchCmd", "postprocessParsed",
 		"postprocessIOSACL", "postprocessASAACL", "postprocessACLParts", "dstOfRoute", "State.alignVRFs",
-		"State.checkASAInterfaces", "State.checkIOSInterfaces"}},
+		"State.checkASAInterfaces", "State.checkIOSInterfaces", "parser.checkReferences", "mergeASAACLs", "mergeIOSACLs"}},
+	{"ios", nil, []string{"removeBanner"}},
 	{"linux", nil, []string{"State.ParseConfig", "parseRoutes", "State.parseIPTables", "config.MergeSpoc"}},
 	{"nsx", nil, []string{"State.ParseConfig", "checkNoNull", "checkRaw", "checkConfigValidity", "removeHeader",
 		"sortGroups", "sortRules", "findGroupOnDevice", "groupPair.LenA", "groupPair.LenB", "groupPair.Equal",
@@ -106,6 +107,7 @@ type descr struct {
 	prefix   string
 	template []string
 	ignore   bool
+	refs     []string // referenced prefixes, one per $REF of the template
 	sub      []*descr
 }
 
@@ -145,12 +147,14 @@ func parseCmdInfo(info string) ([]*descr, error) {
 			prefix = strings.ReplaceAll(parts[0], "_", " ")
 			parts = parts[1:]
 		}
+		var refs []string
 		for i, val := range parts {
 			if val[0] == '$' && len(val) > 1 && val != "$NAME" && val != "$SEQ" {
+				refs = append(refs, strings.ReplaceAll(val[1:], "_", " "))
 				parts[i] = "$REF"
 			}
 		}
-		*store = append(*store, &descr{prefix: prefix, template: parts, ignore: ignore})
+		*store = append(*store, &descr{prefix: prefix, template: parts, ignore: ignore, refs: refs})
 	}
 	return top, nil
 }
@@ -189,6 +193,7 @@ func leanStr(s string) string {
 func main() {
 	repo := flag.String("repo", "/repo", "repository root")
 	out := flag.String("out", "", "output Lean file")
+	verif := flag.String("verif", "/verif", "verif root (site table, oracle list)")
 	flag.Parse()
 	var sites []site
 	var problems []string
@@ -414,7 +419,7 @@ func main() {
 	for _, m := range []string{"asa", "ios"} {
 		fmt.Fprintf(&b, "def %sCmdInfo : String := %s\n\n", m, leanStr(cmdInfo[m]))
 	}
-	b.WriteString("structure RawDescr where\n  pre : String\n  template : List String\n  ignore : Bool\n  sub : List (List String × Bool)\n  deriving Repr\n\n")
+	b.WriteString("structure RawDescr where\n  pre : String\n  template : List String\n  ignore : Bool\n  sub : List (List String × Bool)\n  refs : List String\n  subRefs : List (List String)\n  deriving Repr\n\n")
 	for _, m := range []string{"asa", "ios"} {
 		ds, err := parseCmdInfo(cmdInfo[m])
 		if err != nil {
@@ -432,11 +437,37 @@ func main() {
 			if i == len(ds)-1 {
 				sep = ""
 			}
-			fmt.Fprintf(&b, "  ⟨%s, %s, %v, [%s]⟩%s\n", leanStr(d.prefix), leanStrList(d.template), d.ignore, strings.Join(subs, ", "), sep)
+			var subRefs []string
+			for _, sd := range d.sub {
+				subRefs = append(subRefs, leanStrList(sd.refs))
+			}
+			fmt.Fprintf(&b, "  ⟨%s, %s, %v, [%s], %s, [%s]⟩%s\n", leanStr(d.prefix), leanStrList(d.template), d.ignore, strings.Join(subs, ", "),
+				leanStrList(d.refs), strings.Join(subRefs, ", "), sep)
 		}
 		b.WriteString("]\n\n")
 	}
+	// whole-program classification
+	all, err := classifyAll(*repo, *verif)
+	if err != nil {
+		fmt.Fprintln(os.Stderr, "panicsites:", err)
+		os.Exit(1)
+	}
+	b.WriteString("/-- whole-program pass: distinct site keys per class (theorem / syntactic / oracle / unclassified). -/\n")
+	fmt.Fprintf(&b, "def allSiteKeys : Nat := %d\n", len(all.Sites))
+	for _, c := range []string{"theorem", "syntactic", "oracle", "unclassified"} {
+		fmt.Fprintf(&b, "def allSites_%s : Nat := %d\n", c, all.Counts[c])
+	}
+	fmt.Fprintf(&b, "def unclassified : List String := %s\n\n", leanStrList(all.Unclassified))
+	fmt.Fprintf(&b, "def reachablePackages : List String := %s\n\n", leanStrList(all.Packages))
 	b.WriteString("end NA.Gen.PanicSites\n")
+	if *out != "" {
+		if err := writeJSON(strings.TrimSuffix(*out, ".lean")+"All.json", all); err != nil {
+			fmt.Fprintln(os.Stderr, err)
+			os.Exit(1)
+		}
+	}
+	fmt.Fprintf(os.Stderr, "panicsites: whole program: %d keys in %d packages: %v, unclassified %d, stale oracle entries %d\n",
+		len(all.Sites), len(all.Packages), all.Counts, len(all.Unclassified), len(all.StaleOracle))
 	if *out == "" {
 		fmt.Print(b.String())
 	} else {
